@@ -78,6 +78,26 @@ def replay_path(cid, item, finding):
 
 
 def run(cid, tier="quick", seed=0, jobs=None, only=None):
+    """all scratch files of the run (generated C sources, shared objects, CLI output directories, children's temp dirs) live under one
+    directory that is removed at the end, whatever happens to the workers"""
+    import shutil
+    import tempfile
+    scratch = tempfile.mkdtemp(prefix=f"gxverif-{cid}-")
+    old_tmp = os.environ.get("TMPDIR")
+    os.environ["TMPDIR"] = scratch
+    tempfile.tempdir = None
+    try:
+        return _run(cid, tier, seed, jobs, only)
+    finally:
+        if old_tmp is None:
+            os.environ.pop("TMPDIR", None)
+        else:
+            os.environ["TMPDIR"] = old_tmp
+        tempfile.tempdir = None
+        shutil.rmtree(scratch, ignore_errors=True)
+
+
+def _run(cid, tier="quick", seed=0, jobs=None, only=None):
     t0 = time.time()
     mod = load_check(cid)
     items = mod.items(tier)
